@@ -123,6 +123,37 @@ func TableCase(r *vgen.Rand, c *Config, nowSec int64, ilt, elt int, change, ing,
 	return sc
 }
 
+// TableCell describes one cell of the table (kept in Scenario.Cell).
+type TableCell struct {
+	ILT, ELT            int
+	Change, Ing, Egress string
+	ConsDir             bool
+}
+
+// Admissible is the property's table, transcribed a second time in Go. It is only used to
+// report a concrete failing cell from the Go side (the Coq oracle is the authority).
+func (t TableCell) Admissible() bool {
+	if t.Ing != "ext" {
+		return t.Egress == "ext" && t.Change != "xover"
+	}
+	if t.Egress != "ext" && t.Egress != "sib" {
+		return false
+	}
+	type pr struct{ a, b int }
+	if t.Change == "xover" {
+		switch (pr{t.ILT, t.ELT}) {
+		case pr{LTCore, LTChild}, pr{LTChild, LTCore}, pr{LTChild, LTChild}:
+			return true
+		}
+		return false
+	}
+	switch (pr{t.ILT, t.ELT}) {
+	case pr{LTCore, LTCore}, pr{LTChild, LTParent}, pr{LTParent, LTChild}, pr{LTChild, LTPeer}, pr{LTPeer, LTChild}:
+		return true
+	}
+	return false
+}
+
 // Table enumerates the complete table: 5x5 link types x segment change x
 // ingress kind x egress kind x construction direction (link types of egress
 // kinds without one are enumerated once).
@@ -141,6 +172,7 @@ func Table(x *Ctx, stream string) int {
 						for _, cons := range []bool{true, false} {
 							r := x.Rng.Fork(uint64(n))
 							sc := TableCase(r, c, x.Now, ilt, elt, change, ing, egk, cons)
+							sc.Cell = &TableCell{ilt, elt, change, ing, egk, cons}
 							x.Emit(stream, name, rt, sc)
 							n++
 						}
